@@ -383,6 +383,40 @@ func main() {
 			r.Violation(c.Idx, "roundtrip-mismatch kind="+kind, fmt.Sprintf("L=%d bytes=%x Encode=%q Decode=%x", L, model, text, back), map[string]interface{}{"len": L, "bytes": vk.Hex(model), "text": text, "decoded": vk.Hex(back)})
 		}
 		r.Shape(fmt.Sprintf("%s L%d roundtrip %s", kind, L, bclass))
+		// the same converter instance keeps being used, and the caller recycles one buffer for successive
+		// addresses (overwritten in place between calls), also re-encoding an address it encoded before
+		if rng.Chance(1, 3) {
+			buf := append([]byte{}, model...)
+			prev := append([]byte{}, model...)
+			for k := 0; k < 4; k++ {
+				var nb []byte
+				if k == 2 {
+					nb = prev // an address seen two calls ago comes back
+				} else {
+					nb, _ = genBytes(rng, L)
+				}
+				prev = append([]byte{}, buf...)
+				copy(buf, nb)
+				want := append([]byte{}, buf...)
+				t2 := conv.Encode(buf)
+				var canon2 string
+				if isBech {
+					canon2 = refEncode("erd", want)
+				} else {
+					canon2 = hex.EncodeToString(want)
+				}
+				r.Eval(1)
+				r.Count(kind+".encode_recycled_buffer", 1)
+				if t2 != canon2 {
+					r.Violation(c.Idx, "encode-not-canonical kind="+kind+" reuse=recycled-buffer", fmt.Sprintf("L=%d call %d on the same converter with the caller's buffer overwritten in place: bytes=%x Encode=%q reference=%q", L, k+2, want, t2, canon2), map[string]interface{}{"len": L, "bytes": vk.Hex(want), "got": t2, "want": canon2, "first_bytes": vk.Hex(model)})
+					break
+				}
+				if b2, e2 := conv.Decode(t2); e2 != nil || !bytes.Equal(b2, want) {
+					r.Violation(c.Idx, "roundtrip-mismatch kind="+kind+" reuse=recycled-buffer", fmt.Sprintf("L=%d call %d: bytes=%x Encode=%q Decode=%x err=%v", L, k+2, want, t2, b2, e2), map[string]interface{}{"len": L, "bytes": vk.Hex(want), "text": t2})
+					break
+				}
+			}
+		}
 		if text != canon {
 			// hostile texts are derived from the reference text, keep going with it
 			text = canon
